@@ -125,8 +125,11 @@ func NewTime(typ types.Type) (Type, bool) {
 	if s := typ.Underlying().String(); s != timeString {
 		return nil, false
 	}
-	name, isNamed := typ.(*types.Named)
-	isDate := isNamed && strings.Contains(strings.ToLower(name.Obj().Name()), "date")
+	name, isNamed := types.Unalias(typ).(*types.Named)
+	if !isNamed { // an anonymous struct with the same fields
+		return nil, false
+	}
+	isDate := strings.Contains(strings.ToLower(name.Obj().Name()), "date")
 	isCustomNamed := name.Obj().Pkg().Path() != "time"
 	out := timeT
 	if isDate {
